@@ -241,7 +241,18 @@ static std::vector<Call> api_calls() {
   v.push_back({"mj_geomDistance", [](const mjModel* m, mjData* d, Rng& r) { mj_forward(m, d); if (m->ngeom >= 2) { mjtNum fromto[6]; int a = r.below(m->ngeom), b = r.below(m->ngeom); if (a != b) mj_geomDistance(m, d, a, b, r.uniform(0.01, 2.0), r.chance(0.5) ? fromto : nullptr); } }});
   v.push_back({"mj_ray/mj_multiRay", [](const mjModel* m, mjData* d, Rng& r) { mj_forward(m, d); mjtNum p[3] = {r.uniform(-1, 1), r.uniform(-1, 1), 2}, v3[3] = {0, 0, -1}; int g[1]; mjtNum nrm[3]; mj_ray(m, d, p, v3, nullptr, 1, -1, g, nrm);
                                        mjtNum vecs[12] = {0, 0, -1, 0.1, 0, -1, 0, 0.1, -1, 1, 0, 0}; int ids[4]; mjtNum dist[4]; mj_multiRay(m, d, p, vecs, nullptr, 1, -1, ids, dist, nullptr, 4, 10.0); }});
-  v.push_back({"mjd_transitionFD", [](const mjModel* m, mjData* d, Rng& r) { mj_forward(m, d); size_t n = 2 * (size_t)m->nv + m->na; std::vector<mjtNum> A(n * n + 1), B(n * (m->nu + 1) + 1); mjd_transitionFD(m, d, 1e-6, r.below(2), A.data(), m->nu ? B.data() : nullptr, nullptr, nullptr); }});
+  v.push_back({"mjd_transitionFD", [](const mjModel* m, mjData* d, Rng& r) { mj_forward(m, d); size_t n = 2 * (size_t)m->nv + m->na; std::vector<mjtNum> A(n * n + 1), B(n * (m->nu + 1) + 1); 
+#if defined(__has_feature)
+#if __has_feature(address_sanitizer)
+    // the recorded finding stack-not-restored:mjd_transitionFD (an automatic reset underneath the routine's open stack frame) shows in this build
+    // as a sanitizer report on the first use of the released work arrays, which would end the shard under another name; the plain build keeps
+    // exercising and reporting it under its own key, this build runs the routine without automatic resets
+    mjModel* mm = const_cast<mjModel*>(m); int df = mm->opt.disableflags; mm->opt.disableflags |= mjDSBL_AUTORESET;
+    mjd_transitionFD(m, d, 1e-6, r.below(2), A.data(), m->nu ? B.data() : nullptr, nullptr, nullptr);
+    mm->opt.disableflags = df; return;
+#endif
+#endif
+    mjd_transitionFD(m, d, 1e-6, r.below(2), A.data(), m->nu ? B.data() : nullptr, nullptr, nullptr); }});
   v.push_back({"mjd_inverseFD", [](const mjModel* m, mjData* d, Rng& r) { mj_forward(m, d); size_t nv = m->nv; std::vector<mjtNum> a(nv * nv + 1), b(nv * nv + 1), c(nv * nv + 1); mjd_inverseFD(m, d, 1e-6, r.below(2), a.data(), b.data(), c.data(), nullptr, nullptr, nullptr, nullptr); }});
   v.push_back({"mj_setKeyframe/copyData/state", [](const mjModel* m, mjData* d, Rng&) { mjData* c = mj_copyData(nullptr, m, d); std::vector<mjtNum> st(mj_stateSize(m, mjSTATE_FULLPHYSICS) + 1); mj_getState(m, d, st.data(), mjSTATE_FULLPHYSICS); mj_setState(m, c, st.data(), mjSTATE_FULLPHYSICS); mj_copyData(d, m, c); mj_deleteData(c); }});
   v.push_back({"mj_constraintUpdate/mulJacVec", [](const mjModel* m, mjData* d, Rng&) { mj_forward(m, d); if (d->nefc) { std::vector<mjtNum> jar(d->nefc), res(d->nefc), vec(m->nv + 1, 0.5), res2(m->nv + 1); mj_mulJacVec(m, d, res.data(), vec.data()); mj_mulJacTVec(m, d, res2.data(), res.data()); mju_copy(jar.data(), res.data(), d->nefc); mjtNum cost; mj_constraintUpdate(m, d, jar.data(), &cost, 1); } }});
